@@ -178,7 +178,171 @@ def pickle_unit(U):
     U.assume_note("pickle / deepcopy restore every ndarray of the state as an independent array of equal content (views are not preserved) and hand the state to __setstate__ or __dict__.update")
 
 
+def collection_unit(copy_fields, duplicate=False):
+    """the real FieldCollection.__init__ (with the real FieldBase.__init__, _data_full / _data_flat properties of
+    ScalarField and VectorField, label setter) on a scalar and a two-component vector field: afterwards the collection
+    owns one array, member k is a VIEW of rows [offset_k, offset_k + components_k) of it (same buffer, same cells, so
+    writes through either side are seen through the other), the contents are those of the given fields, and with
+    copy_fields=True (or a field given twice) the given fields themselves are left alone.
+    Contracts (assumed): number_array(list of rows) = a new array whose row k equals the k-th element; field.copy() =
+    a field of the same class with its own array of equal content; np.may_share_memory = same buffer."""
+    from ..arrays import fresh_array
+
+    def unit(U):
+        def body(it):
+            it.ctx.assume(N >= 1)
+            ccls = it.module_attr(it.load_module("pde.fields.collection"), "FieldCollection")
+            classes = {"scalar": it.module_attr(it.load_module("pde.fields.scalar"), "ScalarField"), "vector": it.module_attr(it.load_module("pde.fields.vectorial"), "VectorField")}
+            grid = Instance(None, {"num_axes": 1, "dim": 2, "_shape_full": (N + 2,), "shape": (N,), "_idx_valid": (slice(1, -1),), "__eq__": lambda o: True}, name="grid")
+
+            def make(kind, name):
+                shape = (N + 2,) if kind == "scalar" else (2, N + 2)
+                full = sym_array(name, shape)
+                f = Instance(classes[kind], {"_grid": grid, "__data_full": full, "_data_valid": full.index((slice(1, -1),) if kind == "scalar" else (slice(None), slice(1, -1))), "_label": name, "kind": kind})
+
+                def copy(label=None, dtype=None, f=f, kind=kind, name=name):
+                    c = make(kind, "copy_of_" + name)
+                    c.attrs["__data_full"].assign((slice(None),) * len(shape), f.attrs["__data_full"])
+                    c.attrs["copy_of"] = f
+                    return c
+
+                f.attrs["copy"] = copy
+                return f
+
+            given = [make("scalar", "s"), make("vector", "v")]
+            if duplicate:
+                given.append(given[0])
+            snapshot = [g.attrs["__data_full"].frozen() for g in given]
+            buffers = [g.attrs["__data_full"].buf for g in given]
+
+            def number_array(rows, dtype=None, copy=None):
+                rows = list(rows)
+                readers = [r.frozen() for r in rows]
+
+                def content(idx):
+                    k = to_z3(idx[0])
+                    v = to_z3(readers[-1]((idx[1],)))
+                    for i in range(len(rows) - 2, -1, -1):
+                        v = z3.If(k == i, to_z3(readers[i]((idx[1],))), v)
+                    return v
+
+                return fresh_array("collection_data", (len(rows), N + 2), content)
+
+            it.stub_names["number_array"] = number_array
+            it.stub_modules["numpy"].attrs["may_share_memory"] = lambda a, b: a.buf is b.buf
+            c = it.instantiate(ccls, [list(given)], {"copy_fields": copy_fields})
+            return c, given, snapshot, buffers
+
+        for p, res in enumerate(explore_paths(U, body)):
+            P = prem_of(res.ctx)
+            nm = f"path{p}"
+            if res.outcome != "return":
+                U.prove(f"{nm}.returns_normally", P, z3.BoolVal(False), info={"exc": str(res.exc)})
+                continue
+            c, given, snapshot, buffers = res.value
+            members = c.attrs.get("_fields", [])
+            full, valid = c.attrs.get("__data_full"), c.attrs.get("_data_valid")
+            copies = copy_fields or duplicate
+            rows = sum(1 if g.attrs["kind"] == "scalar" else 2 for g in given)
+            ok = isinstance(full, NDArr) and isinstance(valid, NDArr) and len(members) == len(given) and valid.buf is full.buf and concrete_eq(full.shape[0], rows)
+            U.prove(f"{nm}.collection_owns_one_array_with_one_row_per_component_and_data_is_a_view_of_it", P, z3.BoolVal(bool(ok)))
+            if not ok:
+                continue
+            j = z3.Int("j")
+            Pj = P + [j >= 0, j < N]
+            off = 0
+            for k, (g, m) in enumerate(zip(given, members)):
+                kind = g.attrs["kind"]
+                ncomp = 1 if kind == "scalar" else 2
+                mf, mv = m.attrs.get("__data_full"), m.attrs.get("_data_valid")
+                U.prove(f"{nm}.member{k}.is_{'a_copy_of' if copies else ''}_the_given_field", P, z3.BoolVal((m.attrs.get("copy_of") is g) if copies else (m is g)))
+                U.prove(f"{nm}.member{k}.shares_the_collection's_array", P, z3.BoolVal(isinstance(mf, NDArr) and mf.buf is full.buf and mv.buf is full.buf))
+                for comp in range(ncomp):
+                    midx = (j,) if kind == "scalar" else (comp, j)
+                    same_cell = z3.And(*[to_z3(a) == to_z3(b) for a, b in zip(mv.base_index(midx), valid.base_index((off + comp, j)))])
+                    U.prove(f"{nm}.member{k}.component{comp}_is_row_{off + comp}_of_the_collection_(same_memory_cells)", Pj, same_cell)
+                    fidx = (j + 1,) if kind == "scalar" else (comp, j + 1)
+                    U.prove(f"{nm}.member{k}.component{comp}_has_the_content_of_the_given_field", Pj, to_z3(valid.read((off + comp, j))) == to_z3(snapshot[k](fidx)))
+                if copies:
+                    U.prove(f"{nm}.given_field{k}_is_left_alone", P, z3.BoolVal(g.attrs["__data_full"].buf is buffers[k] and g.attrs["__data_full"].buf is not full.buf and g.attrs["_data_valid"].buf is buffers[k]))
+                off += ncomp
+
+    return unit
+
+
+def collection_derived_unit(U):
+    """slices, append and copy of a collection build the result through the constructor contract above: slices and
+    append hand the (un-copied) member fields to it with copy_fields=True, so the result never aliases its sources;
+    copy() hands over copies with copy_fields=False; appended collections contribute their member fields in order"""
+    def body(it):
+        ccls = it.module_attr(it.load_module("pde.fields.collection"), "FieldCollection")
+        built = []
+
+        def ctor(interp, args, kw):
+            built.append((list(args[1]), dict(kw)))
+            args[0].attrs["_fields"] = list(args[1])
+            args[0].attrs["_label"] = kw.get("label")
+
+        it.contracts[("pde.fields.collection", "FieldCollection.__init__")] = ctor
+        it.contracts[("pde.fields.collection", "_FieldLabels.__init__")] = lambda interp, args, kw: args[0].attrs.update(collection=args[1])
+
+        def member(name):
+            f = Instance(None, {"label": name, "name": name, "__isinstance__": ("DataFieldBase", "FieldBase")}, name=name)
+            f.attrs["copy"] = lambda **kw: Instance(None, {"copy_of": f, "label": name}, name="copy of " + name)
+            return f
+
+        a, b, c, d, e = (member(n) for n in "abcde")
+        coll = Instance(ccls, {"_fields": [a, b, c], "_label": "lbl"})
+        other = Instance(ccls, {"_fields": [d], "_label": "other"})
+        labels_of = lambda x: [f.attrs["label"] for f in x.attrs["_fields"]]
+        for x in (coll, other):
+            x.attrs["labels"] = labels_of(x)
+        n0 = len(built)
+        sl = it.call(it.getattr(coll, "__getitem__"), [slice(1, 3)], {})
+        r_slice = built[n0:]
+        n0 = len(built)
+        ap = it.call(it.getattr(coll, "append"), [e, other], {})
+        r_append = built[n0:]
+        n0 = len(built)
+        cp = it.call(it.getattr(coll, "copy"), [], {})
+        r_copy = built[n0:]
+        one = it.call(it.getattr(coll, "__getitem__"), [1], {})
+        return (a, b, c, d, e), r_slice, r_append, r_copy, one, sl, ap, cp, coll
+
+    for p, res in enumerate(explore_paths(U, body)):
+        P = prem_of(res.ctx)
+        nm = f"path{p}"
+        if res.outcome != "return":
+            U.prove(f"{nm}.returns_normally", P, z3.BoolVal(False), info={"exc": str(res.exc)})
+            continue
+        (a, b, c, d, e), r_slice, r_append, r_copy, one, sl, ap, cp, coll = res.value
+        same = lambda xs, ys: len(xs) == len(ys) and all(x is y for x, y in zip(xs, ys))
+
+        def isolated(call, sources):
+            """one constructor call; position i holds source field i itself with copy_fields=True (the constructor
+            copies it) or a copy of it (then either flag is fine): the result never aliases a source"""
+            if len(call) != 1:
+                return False
+            fields, kw = call[0]
+            cf = kw.get("copy_fields", False)
+            return len(fields) == len(sources) and all((x is y and cf is True) or x.attrs.get("copy_of") is y for x, y in zip(fields, sources))
+
+        U.prove(f"{nm}.slice_builds_a_collection_of_the_selected_members_that_cannot_alias_them", P, z3.BoolVal(isolated(r_slice, [b, c])))
+        U.prove(f"{nm}.append_builds_members+appended_fields+members_of_appended_collections_in_order_without_aliasing_any_source", P,
+                z3.BoolVal(isolated(r_append, [a, b, c, e, d])))
+        U.prove(f"{nm}.copy_builds_a_collection_of_member_copies", P, z3.BoolVal(isolated(r_copy, [a, b, c])))
+        U.prove(f"{nm}.integer_index_returns_the_member_itself_(a_view_by_the_constructor_contract)", P, z3.BoolVal(one is b))
+        U.prove(f"{nm}.the_source_collection_keeps_its_members", P, z3.BoolVal(same(coll.attrs["_fields"], [a, b, c])))
+
+
+def concrete_eq(a, b):
+    from ..values import concrete
+    return concrete(a) == b if not isinstance(a, int) else a == b
+
+
 UNITS = [("pickle_roundtrip_of_a_field", pickle_unit)]
+UNITS += [(f"FieldCollection.__init__[copy_fields={c}{',field given twice' if d else ''}]", collection_unit(c, d)) for c, d in ((False, False), (True, False), (False, True))]
+UNITS += [("FieldCollection.slice_append_copy", collection_derived_unit)]
 UNITS += [(f"{'inplace' if ip else 'binary'}_operation[other={ok}]", binary_unit(ok, ip)) for ip in (False, True) for ok in ("scalar", "field")] + [("unary_operation", unary_unit)]
 
 
@@ -194,5 +358,5 @@ def bounded(tier, seed):
 
 TRUSTED = ["NumPy view/copy table of pdv/arrays.py (basic indexing = view, arithmetic / np.array = fresh buffer)", "contract of DataFieldBase.__init__ and of field.copy() (fresh padded buffer)"]
 ASSUMPTIONS = ["'all sequences of operations' is reduced to each operation preserving the sharing/isolation invariants"]
-NOT_COVERED = ["FieldCollection construction / re-linking / slicing / append (np.array stacking, reshape(-1, ..) of tensor data), component views of vector and tensor fields, storages: bounded native check only",
+NOT_COVERED = ["tensor members of collections (reshape(-1, ..) merging two axes), FieldCollection.from_state / from_data re-linking, component views of vector and tensor fields, storages: bounded native check only",
                "dtypes other than float64/complex128 (component views of other dtypes are documented copies)"]
